@@ -8,7 +8,7 @@ from ..framework import Check, pmap, MachineryError
 LEVEL = "model_checking"
 QUICK_CAP = {"C04": 5000, "C11": 5000, "C14": 5000, "C07": 6000, "C08": 6000, "C13": 4000, "C15": 1200}
 SIM_NUM = {"quick": 40, "thorough": 1500}
-CASE_TIMEOUT_S = 60
+CASE_TIMEOUT_S = 30
 
 
 def generate(chk, prop, tier, seed):
@@ -32,7 +32,7 @@ def generate(chk, prop, tier, seed):
     behs.extend(exh)
     if prop == "C04":
         # every catalogue variant continued at every token boundary (sweep: one non-default variant per program, the edit on that statement)
-        for part in ("exec", "spec"):
+        for part in ("exec", "decl", "type"):
             cfg = "Perturb_c04v_%s_%s.cfg" % (part, "quick" if tier == "quick" else "thorough")
             r = tlc.run("MCPerturb.tla", cfg, timeout=20000)
             if not r.ok():
@@ -66,6 +66,19 @@ def generate(chk, prop, tier, seed):
         for b in r.beh:
             if any(e["t"] == "ren" for e in b["ed"]):
                 b["fam"] = "exh-ren-cmt"
+                behs.append(b)
+    if prop == "C08":
+        cfg = "Perturb_c08p_%s.cfg" % ("quick" if tier == "quick" else "thorough")
+        r = tlc.run("MCPerturb.tla", cfg, timeout=6000)
+        if not r.ok():
+            raise MachineryError("TLC failed on %s: %s %s" % (cfg, r.invariant_violated, r.error))
+        chk.add_tlc(r)
+        chk.cov["tlc_runs"].append({"cfg": cfg, "generated": r.generated, "distinct": r.distinct, "behaviours": len(r.beh), "wall_s": r.wall_s})
+        from .. import catalogue as _cat
+        for b in r.beh:
+            # the parenthesis edit sits on the opening statement (or a part) of the construct
+            if b["ed"] and b["ed"][0]["pos"] <= len(b["out"]) and (b["out"][b["ed"][0]["pos"] - 1]["k"] in _cat.OPEN or b["out"][b["ed"][0]["pos"] - 1]["k"] in _cat.MIDS):
+                b["fam"] = "exh-parentheses"
                 behs.append(b)
     if prop == "C08":
         # the same single structural edits over the remaining construct kinds and TYPE / INTERFACE / ENUM definitions
@@ -149,6 +162,11 @@ def build_case(prop, b):
             raise MachineryError("line arithmetic of Perturb.tla (%d) and of the renderer (%d) disagree" % (b["garbline"], line))
         meta = {"line": line, "quoted": lay["phys"][line - 1][1]}
         jobs = [dict(name="keep", src=src, std=std, ic=False), dict(name="ignore", src=src, std=std, ic=True)]
+        if b["id"] % 4 == 0 and not any(l.startswith("#") for _, l in lay["phys"]) and max(len(l) for _, l in lay["phys"]) < 60:
+            # the same free-form text indented by six blanks under an indented comment line (free form: a '!' comment that does
+            # not start in column 1, nothing in the label field): one line more, the same statement
+            deep = "  ! free form: this comment starts in column 3\n" + "".join("      " + l + "\n" for _, l in lay["phys"])
+            jobs.append(dict(name="deep", src=deep, std=std, ic=True))
     elif prop == "C08" and b.get("fam") == "streams":
         body = "\n".join("  " + STREAM_TEXT[a] for a in b["stream"])
         jobs = [dict(name="E", src="program u1\n" + body + "\nend program u1\n", std=std, ic=True)]
@@ -348,6 +366,10 @@ def events_for(prop, case, res, D, ctr):
                     # trailing ones as Comment (but not on every path) and the property allows either
                     isdir = e["b"] in (6, 7)
                     exp_dirs.append((("d" if e["a"] in (1, 3) else "cd") if isdir else "c", txt))
+                    if e["a"] == 5 and not any(x["t"] == "cmt" and x["a"] == 2 and x["pos"] == e["pos"] for x in case["ed"]):
+                        # place 5 comes with a second trailing comment on the continuation line
+                        exp_keep.append(("c", perturb.AFTER_BREAK))
+                        exp_dirs.append(("c", perturb.AFTER_BREAK))
                 else:
                     p = ("p", perturb.cpp_norm("\n".join(perturb.CPP[e["a"]])))
                     exp_keep.append(p)
@@ -401,6 +423,8 @@ def events_for(prop, case, res, D, ctr):
     elif prop == "C07":
         for name in ("keep", "ignore"):
             claim("fseat", name, line=case["meta"]["line"], q=D(case["meta"]["quoted"].strip()))
+        if "deep" in J:
+            claim("fseat", "deep", line=case["meta"]["line"] + 1, q=D(case["meta"]["quoted"].strip()))
     elif prop == "C08":
         if not case["meta"]["valid"]:
             claim("reject", "E")
